@@ -70,13 +70,32 @@ def dir_text(kind, v):
     return path_string(cast(v) if cast else v)
 
 
-def gen_frame(rng, pcols, n, next_id, kvals=None, jvals=None):
+def gen_frame(rng, pcols, n, next_id, kvals=None, jvals=None, null_cols=(), may_drop_all=False):
     kv = kvals or KVALS
     jv = jvals or JVALS
     rows = []
     for i in range(n):
         rows.append({"x": next_id + i, "y": rng.choice([0.5, 1.5, -2.0]), "k": rng.choice(kv), "j": rng.choice(jv)})
+    if null_cols and rng.random() < 0.6:
+        # rows whose partition key is MISSING (NaN / None / NaT): partition_on drops them ("as with pandas, null values will be
+        # dropped"), so the plain model never sees them; placed first / last / anywhere, next to one or several distinct keys
+        how = rng.choice(["first", "last", "some", "some", "all"])
+        for c in null_cols:
+            if rng.random() < 0.7:
+                for i, r in enumerate(rows):
+                    if (how == "first" and i == 0) or (how == "last" and i == n - 1) or (how == "some" and rng.random() < 0.35) or how == "all":
+                        r[c] = None
+        if not may_drop_all and all(any(r[c] is None for c in null_cols) for r in rows):
+            # a first write / overwrite / write_row_groups call keeps at least one complete row: the model reads "is this frame partitioned" off
+            # its (directory, rows) groups (an append / overwrite of only dropped rows is modelled as an edit that adds nothing)
+            r = rng.choice(rows)
+            for c in null_cols:
+                if r[c] is None:
+                    r[c] = rng.choice(kv if c == "k" else jv)
     return rows
+
+
+NULLABLE_KEY_KINDS = ("str", "float", "ts")      # key kinds whose column can hold a missing value without changing dtype
 
 
 def sub_pool(rng, pool):
@@ -104,7 +123,10 @@ def gen_history(rng, hid, maxlen=6):
     n = rng.choice([1, 2, 4, 6, 8])
     kkind, kpool = rng.choice(KIND_POOLS["k"][:3] * 2 + KIND_POOLS["k"][3:])
     jkind, jpool = rng.choice(KIND_POOLS["j"][:3] * 2 + KIND_POOLS["j"][3:])
-    ops = [{"op": "write", "frame": gen_frame(rng, pcols, n, nid, kpool, jpool), "offsets": None}]
+    null_cols = ()
+    if pcols and rng.random() < 0.35:
+        null_cols = tuple(c for c in pcols if {"k": kkind, "j": jkind}[c] in NULLABLE_KEY_KINDS)
+    ops = [{"op": "write", "frame": gen_frame(rng, pcols, n, nid, kpool, jpool, null_cols), "offsets": None}]
     ops[0]["offsets"] = offsets(rng, n)
     nid += n
     for _ in range(rng.randrange(0, maxlen)):
@@ -115,7 +137,7 @@ def gen_history(rng, hid, maxlen=6):
                         "all": rng.random() < 0.06, "sort_pnames": rng.random() < 0.5})
             continue
         n = rng.choice([1, 2, 3, 5, 6])
-        o = {"op": kind, "frame": gen_frame(rng, pcols, n, nid, sub_pool(rng, kpool), sub_pool(rng, jpool)), "offsets": offsets(rng, n)}
+        o = {"op": kind, "frame": gen_frame(rng, pcols, n, nid, sub_pool(rng, kpool), sub_pool(rng, jpool), null_cols, kind == "append"), "offsets": offsets(rng, n)}
         nid += n
         if rng.random() < 0.2:
             o["y_int"] = True      # the new frame's y column is int64: the part files must still carry the summary's schema (y: double)
@@ -141,6 +163,25 @@ def kind_witnesses():
         out.append({"id": 900021 + n, "pcols": ["k"], "ptypes": {"k": kind, "j": "str"}, "ops": [
             {"op": "write", "frame": fr0, "offsets": [0, 2]}, {"op": "overwrite", "frame": fr1, "offsets": [0]},
             {"op": "overwrite", "frame": fr2, "offsets": [0, 1]}]})
+    return out
+
+
+def null_key_witnesses():
+    """rows with a missing partition key next to exactly ONE distinct key in the written chunk (and next to two): they are dropped,
+    on the first write, on append and on overwrite"""
+    def fr(vals, start):
+        return [{"x": start + i, "y": 0.5, "k": k, "j": j} for i, (k, j) in enumerate(vals)]
+    out = []
+    for n, (ptypes, pcols, a, b) in enumerate([({"k": "int", "j": "str"}, ["j"], "a", "b"), ({"k": "float", "j": "str"}, ["k"], 1.0, 2.5),
+                                              ({"k": "int", "j": "str"}, ["k", "j"], "a", "b")]):
+        def kv(v, kk=1):
+            return (v, "a") if pcols == ["k"] else (kk, v)
+        out.append({"id": 900041 + n, "pcols": pcols, "ptypes": ptypes, "ops": [
+            {"op": "write", "frame": fr([kv(a), kv(None), kv(b), kv(a)], 0), "offsets": [0, 2]},
+            {"op": "append", "frame": fr([kv(a), kv(None), kv(a)], 4), "offsets": [0]},
+            {"op": "append", "frame": fr([kv(None), kv(b)], 7), "offsets": [0]},
+            {"op": "overwrite", "frame": fr([kv(b), kv(None), kv(None)], 9), "offsets": [0]},
+            {"op": "writergs", "frame": fr([kv(None), kv(a), kv(b), kv(None)], 12), "offsets": [0, 2], "sort_key": "part", "sort_pnames": True}]})
     return out
 
 
@@ -205,6 +246,7 @@ def cut(frame, offs, pcols, ptypes=None):
         end = offs[i + 1] if i + 1 < len(offs) else n
         sub = frame[start:end]
         if pcols:
+            sub = [r for r in sub if all(r[c] is not None for c in pcols)]       # rows with a missing key are dropped by the writer's groupby
             keys = sorted(set(tuple(r[c] for c in pcols) for r in sub))
             g = []
             for key in keys:
@@ -228,6 +270,11 @@ def model_ops(h, resolved):
             out.append(["remove", list(sel if sel is not None else []), 1 if o["sort_pnames"] else 0])
             continue
         rgs = sx_rgs(cut(o["frame"], o["offsets"], h["pcols"], h.get("ptypes")))
+        if h["pcols"] and o["op"] == "append" and not any(g for g in rgs):
+            # every row of the frame has a missing partition key and is dropped: the append adds nothing - in the model: the
+            # removal of no row group (an overwrite / write_row_groups call of such a frame still re-sorts: not generated)
+            out.append(["remove", [], 0])
+            continue
         if o["op"] == "writergs":
             out.append(["writergs", rgs, o["sort_key"], 1 if o["sort_pnames"] else 0])
         else:
@@ -250,11 +297,11 @@ def to_df(frame, pcols, ptypes=None, y_int=False):
         if kind in ("int", "bigint"):
             d[c] = np.array(vals, dtype="int64")
         elif kind == "float":
-            d[c] = np.array(vals, dtype="float64")
+            d[c] = np.array([np.nan if v is None else v for v in vals], dtype="float64")
         elif kind == "bool":
             d[c] = np.array(vals, dtype="bool")
         elif kind == "ts":
-            d[c] = pd.Series([pd.Timestamp(v) for v in vals])
+            d[c] = pd.Series([pd.NaT if v is None else pd.Timestamp(v) for v in vals])
         else:
             d[c] = pd.Series(vals, dtype=object)
     return pd.DataFrame(d)
@@ -427,7 +474,7 @@ def run(ctx):
                 "partition values are drawn per history from pools of which two hold prefix-related texts (k in 1/10/11/2/21, j in a/ab/abc/b) and every new frame "
                 "from the whole pool, one value only, or a random subset; plus the DESIGN witness history, 3 prefix-value and 5 value-kind witness histories and 2 "
                 "histories that empty the dataset and append again (finding fixed by 05c32a7)")
-    hs = [design_witness(), emptied_history(["k"], 900002), emptied_history([], 900003)] + prefix_witnesses() + kind_witnesses() + [user_open_witness()] + [gen_history(rng, i) for i in range(nh)]
+    hs = [design_witness(), emptied_history(["k"], 900002), emptied_history([], 900003)] + prefix_witnesses() + kind_witnesses() + null_key_witnesses() + [user_open_witness()] + [gen_history(rng, i) for i in range(nh)]
     cdir = os.path.join(C.VERIF, "corpus", "C09")
     if os.path.isdir(cdir):
         for i, f in enumerate(sorted(os.listdir(cdir))):
@@ -475,6 +522,7 @@ def run(ctx):
         ctx.count("partition_columns", len(h["pcols"]))
         ctx.count("history_length", len(h["ops"]))
         ctx.count("open_with", "user function" if h.get("user_open") else "default")
+        ctx.count("frames_with_missing_partition_keys", sum(1 for o in h["ops"] if any(r[c] is None for r in o.get("frame", []) for c in h["pcols"])))
         ctx.count("partition_value_kinds", "/".join((h.get("ptypes") or DEFAULT_PTYPES)[c] for c in h["pcols"]) or "-")
         if not isinstance(mo, list) or len(mo) != len(h["ops"]):
             ctx.correspondence("edit_hist answers one record per step", {"history": h["id"]}, len(h["ops"]), mo)
